@@ -31,7 +31,7 @@ def run_op(rep, h, nproc=None, bounds=None, replay_fn=None):
             rep.witnesses[k] = rep.witnesses.get(k, 0) + v
     rep.note("%s: paths=%d decisions=%d viol_candidates=%d wall=%.1fs %s" % (
         h.label, stats["paths"], stats["decisions"], len(h.viol), stats["wall"], dict(h.counts)))
-    if h.counts.get("ans_true", 0) + h.counts.get("ans_false", 0) > 0 and hasattr(h, "expected") and h.expected() is not None \
+    if isinstance(h, ops.OpHarness) and h.counts.get("ans_true", 0) + h.counts.get("ans_false", 0) > 0 and h.expected() is not None \
             and not h.witness.get("twin_negated_spec_detected"):
         rep.inconclusive.append("%s: vacuity twin (negated specification) was not refuted on any path" % h.label)
     if not h.viol:
